@@ -5,7 +5,8 @@
 (* wallets in memory (post), the wallets a freshly started service loads   *)
 (* from the same directory (reload), and observed facts per wallet.        *)
 (* A wallet is projected to [id, type, fp, encrypted, label, temp, ext,    *)
-(* chg] (ext/chg: the entry addresses of the external / change chain).     *)
+(* chg, sec] (ext/chg: the entry addresses of the external / change chain, *)
+(* sec: a digest of the encrypted secrets blob).                           *)
 (***************************************************************************)
 EXTENDS Integers, Sequences, FiniteSets, Json, TLC
 
@@ -15,7 +16,8 @@ Init == l \in 1..Len(Recs)
 Next == UNCHANGED l
 
 Rng(f) == { f[i] : i \in DOMAIN f }
-P(q) == { [id |-> q[i].id, type |-> q[i].type, fp |-> q[i].fp, encrypted |-> q[i].encrypted, label |-> q[i].label, ext |-> q[i].ext, chg |-> q[i].chg] : i \in DOMAIN q }
+P(q) == { [id |-> q[i].id, type |-> q[i].type, fp |-> q[i].fp, encrypted |-> q[i].encrypted, label |-> q[i].label, ext |-> q[i].ext, chg |-> q[i].chg,
+           sec |-> q[i].sec] : i \in DOMAIN q }
 Persistent(q) == P(SelectSeq(q, LAMBDA w : ~w.temp))
 ById(q, id) == LET s == SelectSeq(q, LAMBDA w : w.id = id) IN IF Len(s) = 0 THEN [id |-> "", ext |-> << >>, chg |-> << >>, encrypted |-> FALSE, temp |-> FALSE, type |-> ""] ELSE s[1]
 
@@ -44,6 +46,7 @@ EffectOK(r) ==
       [] r.op = "recover" -> a.encrypted /\ b.ext = a.ext /\ b.chg = a.chg /\ r.rightPw /\ Others(r)
       [] r.op = "unload" -> b.id = "" /\ Others(r)
       [] r.op = "updatesecrets" -> b.ext = a.ext /\ b.encrypted = a.encrypted /\ Others(r)
+      [] r.op = "viewsecrets" -> P(r.post) = P(r.pre)                                      \* looking changes nothing
       [] OTHER -> TRUE
 
 Fact(r, name) == \A i \in DOMAIN r.facts : r.facts[i][name]
